@@ -54,6 +54,12 @@ def rt_search(contract_file, qual, seed, n, out, timeout=120):
 
 
 def rt_replay(path, timeout=120):
+    try:
+        if json.load(open(path)).get("kind") == "datasets":
+            r = subprocess.run([TARGET_PY, "-m", "pyvc.rt_datasets", path + ".rerun"], cwd=VERIF, env=rt_env(), capture_output=True, text=True, timeout=timeout)
+            return r.returncode, r.stdout + r.stderr
+    except Exception:
+        pass
     cmd = [TARGET_PY, "-m", "pyvc.rt_runner", "replay", path]
     r = subprocess.run(cmd, cwd=VERIF, env=rt_env(), capture_output=True, text=True, timeout=timeout)
     return r.returncode, r.stdout + r.stderr
@@ -152,6 +158,19 @@ def run(pid, P, a, seed, t0):
         for q, e in errors:
             print(f"CHECKER-ERROR property={pid}: {q}: {e}")
         return 3
+    driver_info = None
+    if P.get("driver") == "datasets":
+        from pyvc import datasets_check
+        recs, driver_info = datasets_check.obligations(db, mods, REPO_SRC)
+        all_obls.extend(recs)
+        out = os.path.join(VERIF, "out", "replays", f"{pid}_datasets_native.json")
+        r = subprocess.run([TARGET_PY, "-m", "pyvc.rt_datasets", out], cwd=VERIF, env=rt_env(), capture_output=True, text=True, timeout=300)
+        try:
+            nat = json.load(open(out))
+        except Exception:
+            nat = dict(status="error", problems=[dict(name="?", problem=(r.stdout + r.stderr)[-400:])])
+        driver_info["native"] = dict(status=nat.get("status"), bundled_files_ok=nat.get("bundled_files_ok"), problems=len(nat.get("problems", [])))
+        driver_info["native_replay"] = out
     lemma_obls = []
     lemma_names = list(P.get("lemmas", []))
     for r in results:
@@ -222,6 +241,20 @@ def run(pid, P, a, seed, t0):
                 os.unlink(out)
         return None
 
+    if driver_info is not None:
+        enum_failed = [o for o in failed if o.kind == "enumeration"]
+        failed = [o for o in failed if o.kind != "enumeration"]
+        if enum_failed or driver_info["native"]["status"] != "none":
+            concrete = driver_info["native"]["status"] == "violation"
+            path = driver_info["native_replay"]
+            if enum_failed and not concrete:
+                path = os.path.join(VERIF, "out", "replays", f"{pid}_enumeration.json")
+                json.dump(dict(status="obligation-failed", property=pid, obligation=enum_failed[0].name,
+                               failed_obligations=[o.name + " : " + (o.model or "") for o in enum_failed[:60]],
+                               solver_output="concrete symbolic execution of load_dataset"), open(path, "w"), indent=1)
+            for o in enum_failed[:8]:
+                print(f"   failed: {o.name} {o.model[:120]}")
+            violations.append((path, enum_failed[0] if enum_failed else None, concrete))
     # group failures by function, try to find a failing input for each group
     byf = {}
     for o in failed:
@@ -301,7 +334,8 @@ def run(pid, P, a, seed, t0):
             bounded_monitoring=dict(functions=monitor, **rt_stats),
             degraded=[dict(function=q, reason=why, stand_in="run-time contract monitoring (bounded)") for q, why in degraded],
             explanation=P.get("explanation", ""),
-            exhaustive=False,
+            exhaustive=bool(driver_info),
+            enumeration=driver_info,
         ),
         assumptions=sorted(set(P.get("assumptions", [])) | {x for r in results for x in r.assumed}),
         wall_s=round(time.time() - t0, 2),
